@@ -779,6 +779,20 @@ func (s *scenario) send(spec reqSpec) {
 		}
 	}
 	sort.Strings(got)
+	// the coordinator lookups the transport made for this request: key, key type and where they went
+	var fcs []string
+	if key != protocol.FindCoordinator {
+		for _, e := range s.c.Since(mark) {
+			if fr, ok := e.Req.(*findcoordinator.Request); ok {
+				fcs = append(fcs, fmt.Sprintf("%s/%d@b%d", dash(fr.Key), fr.KeyType, e.Broker))
+			}
+		}
+		sort.Strings(fcs)
+	}
+	fcSuffix := ""
+	if len(fcs) > 0 {
+		fcSuffix = " fc=" + strings.Join(fcs, ",")
+	}
 	kind := ""
 	if err != nil {
 		kind = errKind(err)
@@ -788,11 +802,11 @@ func (s *scenario) send(spec reqSpec) {
 	}
 	switch {
 	case err != nil && len(got) == 0:
-		emit(op, "err "+kind)
+		emit(op, "err "+kind+fcSuffix)
 	case err != nil:
-		emit(op, strings.Join(got, ",")+" err "+kind)
+		emit(op, strings.Join(got, ",")+" err "+kind+fcSuffix)
 	default:
-		emit(op, dash(strings.Join(got, ",")))
+		emit(op, dash(strings.Join(got, ","))+fcSuffix)
 	}
 }
 
@@ -824,6 +838,9 @@ func (s *scenario) randomSpec() reqSpec {
 		}
 		return sp
 	case 7:
+		if r.Intn(3) == 0 { // a transactional id that is also a group name: only the key type tells the two coordinators apart
+			return reqSpec{pkg: pick(r, txnPkgs), txn: "g" + strconv.Itoa(r.Intn(6))}
+		}
 		return reqSpec{pkg: pick(r, txnPkgs), txn: "x" + strconv.Itoa(r.Intn(6))}
 	case 8:
 		return reqSpec{pkg: pick(r, controllerPkgs)}
